@@ -1062,12 +1062,25 @@ fn get_circuit_info(
         .map(|generic_arg| (extract_matches!(generic_arg, GenericArg::Type).clone(), true))
         .collect();
 
+    // The gates between their first and second visit; meeting one of them again on a first visit
+    // means the gate is its own (indirect) input.
+    let mut in_progress = UnorderedHashSet::<ConcreteTypeId>::default();
+
     while let Some((ty, first_visit)) = stack.pop() {
         let long_id = &context.get_type_info(&ty)?.long_id;
 
         if values.contains_key(&ty) {
             // The value was already processed.
             continue;
+        }
+
+        if first_visit {
+            // A cyclic "circuit" (possible for declared, not yet specialized, types) would be
+            // re-pushed forever.
+            require(in_progress.insert(ty.clone()))
+                .ok_or(SpecializationError::UnsupportedGenericArg)?;
+        } else {
+            in_progress.remove(&ty);
         }
 
         let gate_inputs = long_id
